@@ -56,20 +56,20 @@ class Zone:
 
     def __init__(self):
         self.d = {}
-        self.vars = {ZERO}
+        self.vars = {ZERO: None}      # insertion-ordered set (dict): iteration order is deterministic
         self.sat = True
 
     def copy(self):
         z = Zone.__new__(Zone)
         z.d = dict(self.d)
-        z.vars = set(self.vars)
+        z.vars = dict(self.vars)
         z.sat = self.sat
         return z
 
     # -- internals ---------------------------------------------------------
     def _touch(self, v):
         if v not in self.vars:
-            self.vars.add(v)
+            self.vars[v] = None
             # unsigned: 0 - v <= 0
             self._add(ZERO, v, 0)
 
@@ -202,7 +202,8 @@ class Zone:
         ts = set(terms) - {ZERO}
         if not ts:
             return
-        self.vars -= ts
+        for t in ts:
+            self.vars.pop(t, None)
         self.d = {k: v for k, v in self.d.items() if k[0] not in ts and k[1] not in ts}
 
     def project(self, keep):
@@ -240,13 +241,13 @@ class Zone:
                     if v is not None:
                         nd[(a, b)] = v + oa - ob
         z.d = nd
-        z.vars = set(src)
+        z.vars = {v: None for v in src}
         return z
 
     def rename(self, mapping):
         """mapping: old Term -> new Term (bijective on the mapped part)"""
         f = lambda v: mapping.get(v, v)
-        self.vars = {f(v) for v in self.vars}
+        self.vars = {f(v): None for v in self.vars}
         self.d = {(f(x), f(y)): c for (x, y), c in self.d.items()}
 
     def join(self, other):
@@ -256,7 +257,7 @@ class Zone:
         if not other.sat:
             return self.copy()
         z = Zone()
-        z.vars = self.vars & other.vars
+        z.vars = {v: None for v in self.vars if v in other.vars}
         for (x, y), c in self.d.items():
             if x in z.vars and y in z.vars:
                 o = other.d.get((x, y))
@@ -271,7 +272,7 @@ class Zone:
         if not newer.sat:
             return self.copy()
         z = Zone()
-        z.vars = self.vars & newer.vars
+        z.vars = {v: None for v in self.vars if v in newer.vars}
         for (x, y), c in self.d.items():
             if x in z.vars and y in z.vars:
                 o = newer.d.get((x, y))
